@@ -249,6 +249,15 @@ class Grid:
                             flags = ("analog",) if (first and self.fam.name == "NXPLL") else ()
                             first = False
                             yield Req(fin, list(zip(fs, ps, ms)), flags)
+        for fin, outs in EXTRA_REQUESTS.get(self.fam.name, ()):
+            yield Req(fin, list(outs))
+
+
+# single requests kept in every tier because a defect was found (and repaired) at exactly this point
+EXTRA_REQUESTS = {
+    # FX-C20-9: nearest output divider 129 > 128 while the boundary divider 128 is inside the margin
+    "GW5APLL": [(12e6, [(6.25e6, 0, 1e-2)]), (12e6, [(6.25e6, 0, 0)])],
+}
 
 
 class GowinGrid(Grid):
@@ -375,6 +384,7 @@ class EfinixGrid:
         first = pll._c20_platform.device == fam.DEVICES[fam.name][0]
         z = self.z = self.Z[tier if (tier == "thorough" or first) else "light"]
         L = fam.limits(pll)
+        self.pfd = (float(L.pfd[0]), float(L.pfd[1]))
         in_rng = (float(L.pfd[0] * L.N[0]), float(L.pfd[1] * L.N[-1]))            # 10 MHz .. 1.5 GHz
         lo_o, hi_o = float(L.pll[0] / L.C[-1]), float(L.pll[1] / L.C[0])           # fPLL_min/256 .. fPLL_max/1
         self.inputs = uniq([in_rng[0] * (1 - 1e-3), in_rng[0]] + self.IN[tier] + [in_rng[1], in_rng[1] * (1 + 1e-3)])
@@ -410,6 +420,15 @@ class EfinixGrid:
             inside = lo_in <= fin <= hi_in
             # one output (it is the feedback)
             extra = [fin / 15, fin / 16, fin * 2, fin / 4 * 3] if inside else []
+            if inside:
+                # the feedback output is exactly fin*M/N: ratios that need the first pre-divider BEYOND the PFD window
+                # (N = floor(fin/fPFD_min) + 1 when fin is no multiple of fPFD_min, N = ceil(fin/fPFD_max) - 1) must be refused
+                n_hi = int(fin // self.pfd[0]) + 1
+                if fin % self.pfd[0] and 2 <= n_hi <= 15:
+                    extra.append(fin * (n_hi + 1) / n_hi)
+                n_lo = -int(-fin // self.pfd[1]) - 1
+                if n_lo >= 1:
+                    extra.append(fin * (n_lo + 1) / n_lo)
             for k, f in enumerate(uniq(self.out1 + extra)):
                 for p, ms in z["p1"]:
                     for m in ms:
